@@ -17,7 +17,8 @@ func init() {
 			"(supersede-becomes-garbage) every superseding write retires the old version — Table.Put/PutRaw call Table.Delete of the same key before overwriting the index entry, KVStore.Put/PutRaw retire the key from every older table after the insert, and Table.Delete moves the same n bytes from inuse to garbage (shared with C11); " +
 			"(compaction-shape) Compaction evicts only non-writable tables whose garbage is at least the threshold share of the bytes written to them, not of their capacity (comparison truth table {skip, evict, evict}), reports 'not done' after each evicted table, a drained table is unregistered and Reset, and makeTable reuses a recycled table before allocating a new one; " +
 			"(both-kinds-compacted) the periodic worker compacts the primary and the backup partition of every partition id below PartitionCount; " +
-			"(size-boundary-agreement) every entry accepted by the store fits an empty table (otherwise Put allocates tables without bound). " +
+			"(size-boundary-agreement) every entry accepted by the store fits an empty table (otherwise Put allocates tables without bound); " +
+			"(compaction-pause-is-short) between two steps of one fragment's compaction the worker pauses for a constant of at most one second, not for a configured interval. " +
 			"NOT decided: the constant factor of the bound and progress over time (quantify over workloads).",
 		Run: func(r *core.Run) {
 			tableInsertRetiresOld(r)
@@ -35,6 +36,7 @@ func init() {
 			kvEntrySizeFormula(r)
 			c20ClosedFragmentCompactionDone(r)
 			c11IdleTableRemovedByItsOwnIndex(r)
+			c20CompactionPauseIsShort(r)
 		},
 	})
 }
